@@ -87,6 +87,19 @@ func genUnknownField(t *rapid.T, flags map[string]bool) []byte {
 		g = wVarint(wTag(g, 1, 0), 5)
 		// groups nest: a group inside the group, with another field number or with the very same one (the inner end marker
 		// then looks like the outer one), one or two levels deep, followed by more fields of the outer group
+		if rapid.IntRange(0, 9).Draw(t, "veryDeepGroup") == 0 {
+			// hundreds of levels of nesting (still a few hundred bytes): skipping a field has no depth of its own
+			d := rapid.SampledFrom([]int{99, 100, 101, 150, 1000}).Draw(t, "nesting")
+			flags["nested-group"] = true
+			for i := 0; i < d; i++ {
+				g = wTag(g, num, 3)
+			}
+			g = wVarint(wTag(g, 1, 0), 7)
+			for i := 0; i < d; i++ {
+				g = wTag(g, num, 4)
+			}
+			return wTag(g, num, 4)
+		}
 		for depth := rapid.IntRange(0, 2).Draw(t, "groupDepth"); depth > 0; depth-- {
 			inner := num
 			if rapid.Bool().Draw(t, "innerOtherNumber") {
@@ -728,7 +741,7 @@ func (p *strictParser) skipUnknown(num uint64, wt uint64, depth int) {
 	case 5:
 		p.take(4)
 	case 3:
-		if depth > 20 {
+		if depth > 9000 { // (the wire library the decoder stands on stops at 10000)
 			p.ok = false
 			return
 		}
